@@ -253,7 +253,9 @@ func (f *Formatter) formatIfStatement(stmt *ast.IfStatement) string {
 	}
 
 	buf.WriteString(f.formatBlockStatement(stmt.Consequence))
-	if v := f.formatComment(stmt.Consequence.Trailing, "", 0); v != "" {
+	// The trailing comment of the last block is printed by the caller as the trailing comment of the statement line
+	hasFollowing := len(stmt.Another) > 0 || stmt.Alternative != nil
+	if v := f.formatComment(stmt.Consequence.Trailing, "", 0); v != "" && hasFollowing {
 		// If comment is inline , concat to the same line
 		if isInlineComment(stmt.Consequence.Trailing) {
 			buf.WriteString(" " + v)
